@@ -179,6 +179,43 @@ def run_shards(modname, fn, nshards, seed, tier, opts=None, procs=None):
 
 
 # --------------------------------------------------------------------------
+# regression tier: saved failing inputs of repaired defects and of the
+# sensitivity mutants, replayed outside Hypothesis before the search
+
+def _regress_worker(args):
+    modname, path = args
+    os.environ.setdefault('PYTHONHASHSEED', '0')
+    try:
+        mod = importlib.import_module(modname)
+        viol = mod.replay(path)
+        return {'path': path, 'violations': viol or []}
+    except BaseException as e:  # noqa
+        return {'path': path, 'violations': [],
+                'harness_error': '%s: %s\n%s' % (type(e).__name__, e,
+                                                 traceback.format_exc())}
+
+
+def run_regress(prop, modname):
+    """Replay every file of regress/<prop>/ in its own process.
+    Returns (n replayed, [(path, first violation)], [harness errors])."""
+    d = os.path.join(REGRESS_DIR, prop)
+    if os.environ.get('VERIF_NO_REGRESS') or not os.path.isdir(d):
+        return 0, [], []
+    files = sorted(os.path.join(d, f) for f in os.listdir(d)
+                   if f.endswith('.json'))
+    if not files:
+        return 0, [], []
+    ctx = mp.get_context('spawn')
+    procs = min(len(files), int(os.environ.get('VERIF_PROCS', '16')))
+    with ctx.Pool(procs, maxtasksperchild=1) as pool:
+        res = pool.map(_regress_worker, [(modname, f) for f in files],
+                       chunksize=1)
+    bad = [(r['path'], r['violations'][0]) for r in res if r['violations']]
+    herr = [r['harness_error'] for r in res if r.get('harness_error')]
+    return len(files), bad, herr
+
+
+# --------------------------------------------------------------------------
 # findings
 
 def load_findings():
@@ -223,6 +260,9 @@ def finish(prop, tier, seed, level, t0, stats, failures, harness_errors,
         coverage['exhaustive'] = bool(exhaustive)
     if extra:
         coverage.update(extra)
+    if os.environ.get('VERIF_REGRESS_N'):
+        coverage['counters']['regression_cases_replayed'] = int(
+            os.environ['VERIF_REGRESS_N'])
     code = 0
     lines = []
     for kh in known_hits:
